@@ -9,7 +9,7 @@ SPEC = {
     'bounds': {'quick': 'accepted tables of <= 2 hits, <= 2 ceilometers (every height incl. NaN, type -1..4, any times) x '
                         '5 parameter families with symbolic leaves; 3-hit tables with default parameters; '
                         'H-group: constructed post-slicing states with <= 4 hits in <= 3 slices',
-               'thorough': 'tables of <= 2 hits on 2 ceilometers for all parameter families, 3 hits for two of them, real checker at <= 2 hits; every bundle shape of <= 4 hits, also with symbolic slicing/grouping scales'},
+               'thorough': 'tables of <= 2 hits on 2 ceilometers for all parameter families, 3 hits with default parameters, real checker at <= 2 hits; every bundle shape of <= 4 hits, shapes of <= 3 hits also with symbolic slicing/grouping scales'},
     'outside': 'failures inside scikit-learn / statsmodels / numpy / pandas for arguments within their documented '
                'preconditions (convergence, LinAlgError, LOWESS NaN), termination of their iterations; tables larger than the bound',
     'budget_s': {'quick': 1200, 'thorough': 3600},
@@ -74,7 +74,7 @@ def h_refusals(E, N):
 
 HARNESSES = [
     H('H-run', h_run, quick=[(1, 1, 0, 1), (1, 1, 1, 1), (1, 1, 2, 1), (2, 1, 0, 1), (2, 2, 0, 0), (2, 1, 1, 0), (2, 1, 2, 0), (2, 1, 3, 0), (2, 1, 4, 0), (2, 2, 5, 0)],
-      thorough=[(n, c, p, 0) for n in (1, 2) for c in (1, 2) for p in range(6) if c <= n] + [(3, 1, 0, 0), (3, 1, 2, 0)] +
+      thorough=[(n, c, p, 0) for n in (1, 2) for c in (1, 2) for p in range(6) if c <= n] + [(3, 1, 0, 0)] +
                [(1, 1, p, 1) for p in range(6)] + [(2, 2, 0, 1), (2, 1, 1, 1), (2, 1, 2, 1)],
       float_model='R',
       cover=['one valid hit', 'only non-detections', 'type-1 hit with NaN height (warning-only anomaly)',
@@ -83,12 +83,12 @@ HARNESSES = [
                    'copy with the four required columns (its contract is decided by C15); last entry 1: the real checker runs'],
       doc='real run() + metar_msg() for every accepted table of the size: no exception of any kind'),
     H('H-group', h_group, quick=[('0', 0), ('01', 0), ('00', 0), ('012', 0), ('001', 0), ('0012', 0), ('0122', 0), ('g012', 0)],
-      thorough=[(sh, p) for sh in ('0', '01', '00', '012', '001', '011', '0012', '0122', '0112', '0123') for p in (0, 3)],
+      thorough=[(sh, 0) for sh in ('0', '01', '00', '012', '001', '011', '0012', '0122', '0112', '0123', 'g012', 'g0012')] + [(sh, 3) for sh in ('01', '012', '001')],
       float_model='R', cover=['a bundle of overlapping slices', 'an isolated slice', 'a bundle left with a single one-hit slice'],
       assumptions=['H-group: state after slicing constructed directly (one ceilometer, type 1, times increasing with the row '
                    'index, every valid partition shape listed in the size vector); per-bundle clustering answers an arbitrary partition'],
       doc='real metarize(slices) + find_groups() from a constructed post-slicing state: no exception of any kind'),
-    H('H-refusals', h_refusals, quick=[(1,), (2,)], thorough=[(1,), (2,), (3,)], float_model='R', cover=['ran', 'a parameter-shape problem refused'], scripted=True,
+    H('H-refusals', h_refusals, quick=[(1,), (2,)], thorough=[(1,), (2,)], float_model='R', cover=['ran', 'a parameter-shape problem refused'], scripted=True,
       doc='refused calls (wrong call order, unknown names, incompatible MIN_SEP lengths, unknown scaling mode) raise AmpycloudError and nothing else, including the calls made after a refused one'),
 ]
 get_harness = make_get(HARNESSES)
